@@ -2,6 +2,16 @@ module xjsverif
 
 go 1.23.0
 
-require github.com/xjslang/xjs v0.0.0
+require (
+	github.com/dop251/goja v0.0.0-20250630131328-58d95d85e994
+	github.com/go-sourcemap/sourcemap v2.1.3+incompatible
+	github.com/xjslang/xjs v0.0.0
+)
+
+require (
+	github.com/dlclark/regexp2 v1.11.4 // indirect
+	github.com/google/pprof v0.0.0-20230207041349-798e818bf904 // indirect
+	golang.org/x/text v0.3.8 // indirect
+)
 
 replace github.com/xjslang/xjs => /repo
